@@ -1,9 +1,11 @@
-(* iri.go IRI.Equals / irisEqual over the wide models of the libraries: strings.EqualFold as Model/Fold.v
-   (Unicode simple folding over the decoded runes), net/url as Model/UrlU.v (bytes >= 0x80 and percent-escapes
-   in host, path, query and fragment).  The code of Model/IriEq.v with the fold function as a parameter
-   ([iri_equals_f fold_eqb] IS [iri_equals], Proofs/IriEqUP.iri_equals_f_plain), instantiated with [ufold_eqb],
-   [url_classify_u], [query_values_u].  Then the domain of C14 on the wide grammar and the normal form whose
-   kernel IRI.Equals is there.  Definitions only. *)
+(* iri.go IRI.Equals / irisEqual over the wide models of the libraries: the folding comparison as Model/Fold.v
+   (Unicode simple folding over the decoded runes), net/url as Model/UrlU.v (all byte strings: bytes >= 0x80 and
+   percent-escapes in host, path, query and fragment, userinfo, IP literals).  The code of Model/IriEq.v with the fold
+   function as a parameter ([iri_equals_f fold_eqb] IS [iri_equals], Proofs/IriGenUP.iri_equals_f_plain),
+   instantiated with [sfold_eqb] (iri.go equalFold: an invalid UTF-8 byte is equal to itself only), [url_classify_u],
+   [query_values_u].  PINNED TREE: the comparisons were strings.EqualFold ([ufold_eqb]: every invalid byte is U+FFFD):
+   [iri_equals_u_pinned].  Then the domain of C14 on the wide grammar and the normal form whose kernel IRI.Equals is
+   there.  Definitions only. *)
 From AP.Model Require Import Prelude Bytes Url IriEq IriNf Vocab Pred CollIri Utf8 Fold UrlU.
 
 Section IriEqF.
@@ -40,9 +42,15 @@ Definition paths_equal_f (feq : bytes -> bytes -> bool) (p1 p2 : bytes) : bool :
 
 (* the wide instance *)
 Definition iri_equals_u (i w : bytes) (cs : bool) : option bool :=
-  iri_equals_f ufold_eqb url_classify_u query_values_u values_eq (paths_equal_f ufold_eqb) i w cs.
+  iri_equals_f sfold_eqb url_classify_u query_values_u values_eq (paths_equal_f sfold_eqb) i w cs.
 Definition iri_equ (i w : bytes) (cs : bool) : bool :=
   match iri_equals_u i w cs with Some b => b | None => false end.
+
+(* the pinned tree: strings.EqualFold at the five places *)
+Definition iri_equals_u_pinned (i w : bytes) (cs : bool) : option bool :=
+  iri_equals_f ufold_eqb url_classify_u query_values_u values_eq (paths_equal_f ufold_eqb) i w cs.
+Definition iri_equ_pinned (i w : bytes) (cs : bool) : bool :=
+  match iri_equals_u_pinned i w cs with Some b => b | None => false end.
 
 (* IRIs.Contains over it *)
 Definition iris_contains_u (l : list bytes) (x : bytes) : bool :=
@@ -74,24 +82,25 @@ Definition q_lower_class (q : bytes) : bool := forallb is_ascii q && no_upper (e
 Definition q_upper_class (q : bytes) : bool := forallb is_ascii q && no_lower (esc_upper q).
 
 (* ---------------------------------------------------------------- the domain and the normal form *)
-(* an IRI is in the domain when it is valid UTF-8 as a string, url.Parse gives it a scheme and a host (no
-   userinfo, no IP literal: outside the model) and its query string is in the one-case class *)
+(* an IRI is in the domain when url.Parse gives it a scheme and a host (ANY byte string that does: valid UTF-8 or
+   not, with or without userinfo, IP literals included) and its query string is in the one-case class *)
 Definition iri_dom_u_with (qok : bytes -> bool) (s : bytes) : bool :=
-  utf8_valid s &&
   match url_classify_u s with
   | UValid u => qok (u_query u)
   | _ => false
   end.
 Definition iri_dom_u : bytes -> bool := iri_dom_u_with q_lower_class.
 Definition iri_dom_u_upper : bytes -> bool := iri_dom_u_with q_upper_class.
+(* the domain the theorems had before the repair: valid UTF-8 on top *)
+Definition iri_dom_u_pinned (s : bytes) : bool := utf8_valid s && iri_dom_u s.
 
-(* scheme (when asked), host with port, cleaned path - each as its canonical rune list under EqualFold - and
-   the sorted list of DECODED (key, value) pairs *)
+(* scheme (when asked), host with port, cleaned path - each as its canonical list under equalFold (runes folded, an
+   invalid byte kept as itself) - and the sorted list of DECODED (key, value) pairs; userinfo is not in it *)
 Definition nform_u := (list N * list N * list N * list (bytes * bytes))%type.
 Definition nf_url_u (cs : bool) (u : url) : nform_u :=
-  (if cs then ucanon (u_scheme u) else [],
-   ucanon (u_host u),
-   ucanon (clean_url_path path_clean (u_path u)),
+  (if cs then scanon (u_scheme u) else [],
+   scanon (u_host u),
+   scanon (clean_url_path path_clean (u_path u)),
    sort_pairs (query_pairs_u (u_query u))).
 Definition nf_u (cs : bool) (s : bytes) : option nform_u :=
   match url_classify_u s with
